@@ -881,16 +881,27 @@ class PDDLWriter:
                 param_str = f" {' '.join((self._get_mangled_name(p.object()) for p in action_instance.actual_parameters))}"
             return f"({self._get_mangled_name(action_instance.action)}{param_str})"
 
+        def _format_time(time: Fraction) -> str:
+            # The plan format (see PDDLReader.parse_plan) has no exponent notation,
+            # so a time is never printed as the repr of a float: integers are
+            # printed as such, the other rationals in positional decimal notation,
+            # exactly when their decimal expansion is finite (rounded, with the
+            # converter's warning, otherwise).
+            if time.denominator == 1:
+                return str(time.numerator)
+            return format(Decimal(str(converter.convert_fraction(time))), "f")
+
         if isinstance(plan, SequentialPlan):
             for ai in plan.actions:
                 out.write(f"{_format_action_instance(ai)}\n")
         elif isinstance(plan, TimeTriggeredPlan):
+            converter = ConverterToPDDLString(
+                self.problem.environment, self._get_mangled_name
+            )
             for s, ai, dur in plan.timed_actions:
-                start = s.numerator if s.denominator == 1 else float(s)
-                out.write(f"{start}: {_format_action_instance(ai)}")
+                out.write(f"{_format_time(s)}: {_format_action_instance(ai)}")
                 if dur is not None:
-                    duration = dur.numerator if dur.denominator == 1 else float(dur)
-                    out.write(f"[{duration}]")
+                    out.write(f"[{_format_time(dur)}]")
                 out.write("\n")
         else:
             raise NotImplementedError
